@@ -130,6 +130,24 @@ Proof.
   rewrite chunks_cons in H by (auto; discriminate). discriminate.
 Qed.
 
+Lemma chunks_last : forall n, 0 < n -> forall l, l <> [] ->
+  last (chunks n l) [] <> [] /\ length (last (chunks n l) []) <= n.
+Proof.
+  intros n Hn l0.
+  apply (chunk_ind n Hn (fun l => l <> [] ->
+           last (chunks n l) [] <> [] /\ length (last (chunks n l) []) <= n)); [congruence|].
+  intros l Hne IH _.
+  rewrite chunks_cons by assumption.
+  destruct (skipn n l) as [|y r] eqn:Es.
+  - rewrite chunks_nil. cbn [last]. split.
+    + destruct l; [congruence|]. destruct n; [lia|]. discriminate.
+    + rewrite firstn_length. lia.
+  - specialize (IH ltac:(discriminate)).
+    destruct (chunks n (y :: r)) as [|c0 cs] eqn:Ec.
+    + apply chunks_eq_nil in Ec; [discriminate|assumption].
+    + exact IH.
+Qed.
+
 (* ---------------------------------------------------------------------------------------- *)
 (* xor_bytes *)
 
@@ -185,7 +203,7 @@ Proof.
   intros x Hx.
   assert (E1 : x - x mod 16 = N.shiftl (N.shiftr x 4) 4).
   { rewrite N.shiftl_mul_pow2, N.shiftr_div_pow2. change (2 ^ 4) with 16.
-    pose proof (N.div_mod x 16 ltac:(lia)) as D. rewrite D at 1. rewrite N.mul_comm. lia. }
+    pose proof (N.div_mod x 16 ltac:(lia)) as D. pose proof (N.mod_lt x 16 ltac:(lia)). lia. }
   rewrite E1. apply N.bits_inj. intro n.
   rewrite N.land_spec.
   destruct (N.ltb_spec n 4) as [Hn|Hn].
@@ -199,7 +217,7 @@ Proof.
     destruct (N.ltb_spec (n - 4) 60) as [Hm|Hm].
     + rewrite N.ones_spec_low by assumption. apply andb_true_r.
     + rewrite N.ones_spec_high by assumption. rewrite andb_false_r.
-      destruct (N.eq_dec x 0) as [->|Hx0]. { apply N.bits_0. }
+      symmetry. destruct (N.eq_dec x 0) as [->|Hx0]. { apply N.bits_0. }
       apply N.bits_above_log2.
       assert (N.log2 x < 64). { apply N.log2_lt_pow2; lia. }
       lia.
@@ -280,10 +298,11 @@ Section BlockStream.
     simpl in *. rewrite ref_within by lia. reflexivity.
   Qed.
 
-  Definition iter_nxt (n : nat) (c : N) : N := Nat.iter n nxt c.
+  Fixpoint iter_nxt (n : nat) (c : N) : N :=
+    match n with O => c | S k => iter_nxt k (nxt c) end.
 
   Lemma iter_nxt_S : forall n c, iter_nxt (S n) c = iter_nxt n (nxt c).
-  Proof. intros. unfold iter_nxt. rewrite Nat.iter_succ_r. reflexivity. Qed.
+  Proof. reflexivity. Qed.
 
   (* an empty buffer and any text: chunk-wise description *)
   Lemma ref_chunks : forall msg c, msg <> [] ->
@@ -292,8 +311,14 @@ Section BlockStream.
      (iter_nxt (length (chunks bs msg)) c,
       skipn (length (last (chunks bs msg) [])) (blk (iter_nxt (length (chunks bs msg)) c)))).
   Proof.
-    intro msg. induction msg using (chunk_ind bs bs_pos); [congruence|].
-    intros c _. rename H into Hne.
+    intro msg0.
+    apply (chunk_ind bs bs_pos (fun msg => forall c, msg <> [] ->
+      ref c [] msg =
+      (str_chunks (nxt c) (chunks bs msg),
+       (iter_nxt (length (chunks bs msg)) c,
+        skipn (length (last (chunks bs msg) [])) (blk (iter_nxt (length (chunks bs msg)) c))))));
+      [intros c Hc; exfalso; apply Hc; reflexivity|].
+    clear msg0. intros msg Hne IHmsg c _.
     rewrite chunks_cons by assumption.
     destruct (Nat.le_gt_cases (length msg) bs) as [Hs|Hl].
     - (* single (possibly partial) block *)
@@ -308,7 +333,7 @@ Section BlockStream.
                               | rewrite firstn_length; lia].
       cbn [fst snd]. rewrite firstn_length. replace (Nat.min bs (length msg)) with bs by lia.
       rewrite skipn_all2 by (rewrite blk_len; lia).
-      rewrite (IHmsg Hsk). cbn [fst snd str_chunks length].
+      rewrite (IHmsg _ Hsk). cbn [fst snd str_chunks length].
       rewrite iter_nxt_S.
       f_equal. f_equal. f_equal.
       destruct (chunks bs (skipn bs msg)) eqn:Ec.
@@ -333,7 +358,7 @@ Section BlockStream.
   Proof.
     intros c lo src. unfold carry_step.
     set (n := Nat.min (length src) (length lo)).
-    rewrite <- (firstn_skipn n src) at 3.
+    replace (ref c lo src) with (ref c lo (firstn n src ++ skipn n src)) by (now rewrite firstn_skipn).
     rewrite ref_app. unfold ref_out, ref_st.
     assert (Hf : length (firstn n src) = n) by (rewrite firstn_length; unfold n; lia).
     rewrite ref_within by (rewrite Hf; unfold n; lia).
@@ -353,7 +378,7 @@ Section BlockStream.
               (snd st <> [] -> snd st = skipn (bs - length (snd st)) (blk (fst st))).
 
   Lemma iter_nxt_succ : forall k c, nxt (iter_nxt k c) = iter_nxt (S k) c.
-  Proof. reflexivity. Qed.
+  Proof. induction k; intros c; [reflexivity|]. simpl. rewrite IHk. reflexivity. Qed.
 
   Lemma ref_pos_inv : forall msg c0 p c buf, pos_inv c0 p (c, buf) ->
     pos_inv c0 (p + length msg) (ref_st c buf msg).
@@ -370,7 +395,7 @@ Section BlockStream.
         replace (p + length (m :: t)) with (S p + length t) by (simpl; lia).
         apply IH. exists (S k). cbn [fst snd]. simpl in Hr, Hp.
         repeat split.
-        * rewrite Hc. reflexivity.
+        * rewrite Hc. apply iter_nxt_succ.
         * nia.
         * lia.
         * intros _. rewrite Hk. replace (bs - length r) with 1 by lia. reflexivity.
@@ -383,7 +408,7 @@ Section BlockStream.
         simpl length in Hb.
         assert (E : skipn 1 (k0 :: buf0) = buf0) by reflexivity.
         rewrite Hb in E. rewrite skipn_skipn_add in E.
-        rewrite <- E. f_equal. lia.
+        transitivity (skipn (bs - S (length buf0) + 1) (blk c)); [symmetry; exact E | f_equal; lia].
   Qed.
 
   Lemma pos_inv_init : forall c0, pos_inv c0 0 (c0, []).
